@@ -178,6 +178,10 @@ func (s *dispatchSys) shapeBytes(sh string, peer proto.PeerAddress) []byte {
 		return append([]byte{0x55, 0x55, 0x00, 0x04}, s.fill(4, "cd")...)
 	case "cdBound":
 		return append([]byte{0x40, 0x00, 0x00, 0x08}, s.fill(8, "cd")...)
+	case "cdBoundCookie":
+		return append([]byte{0x40, 0x00, 0x00, 0x14, 0x21, 0x12, 0xa4, 0x42}, s.fill(16, "cd")...)
+	case "cdUnboundCookie":
+		return append([]byte{0x55, 0x55, 0x00, 0x14, 0x21, 0x12, 0xa4, 0x42}, s.fill(16, "cd")...)
 	case "stunBadCookie":
 		b := req(stun.MethodBinding)
 		b[4] ^= 0xff
@@ -522,6 +526,8 @@ func (s *dispatchSys) doClient(a map[string]any, wait func()) ([]Obs, error) {
 		msgs = [][]byte{ind(stun.MethodConnectionAttempt, pa, proto.ConnectionID(uint32(1000+s.step)))} //nolint:gosec
 	case "cdKnown":
 		msgs = [][]byte{append([]byte{0x40, 0x00, 0x00, 0x04}, s.fill(4, "cd")...)}
+	case "cdKnownCookie":
+		msgs = [][]byte{append([]byte{0x40, 0x00, 0x00, 0x14, 0x21, 0x12, 0xa4, 0x42}, s.fill(16, "cd")...)}
 	case "cdUnknown":
 		msgs = [][]byte{append([]byte{0x66, 0x66, 0x00, 0x04}, s.fill(4, "cd")...)}
 	case "cdLenOver":
